@@ -2,6 +2,7 @@ package extrarules
 
 import (
 	"fmt"
+	"go/token"
 	"go/types"
 
 	"astverif/load"
@@ -50,14 +51,23 @@ func dominatedByEdge(b *ssa.BasicBlock, want bool, pred func(cond ssa.Value) boo
 		if !ok {
 			continue
 		}
+		// `!c` taken on its false edge is c taken on its true edge (switch { case !c: … default: … })
+		cond, w := iff.Cond, want
+		for {
+			u, isNot := cond.(*ssa.UnOp)
+			if !isNot || u.Op != token.NOT {
+				break
+			}
+			cond, w = u.X, !w
+		}
 		idx := 1
-		if want {
+		if w {
 			idx = 0
 		}
 		s := d.Succs[idx]
 		other := d.Succs[1-idx]
 		via := (s == cur || s.Dominates(cur)) && len(s.Preds) == 1 && other != s
-		if via && pred(iff.Cond) {
+		if via && (pred(cond) || (cond != iff.Cond && w == want && pred(iff.Cond))) {
 			return true
 		}
 	}
